@@ -464,6 +464,21 @@ func (pc *provCtx) walkFieldOf(base ssa.Value, field string, out originSet, dept
 // within the same outermost function).
 func (pc *provCtx) walkRecv(ch ssa.Value, field string, out originSet, depth int) {
 	m := pc.m
+	// a channel received as a parameter: the channel the caller passed
+	if p, ok := ch.(*ssa.Parameter); ok && depth < 12 {
+		if v, ok := pc.bound(p); ok {
+			pc.walkRecv(v, field, out, depth+1)
+			return
+		}
+		if sites := m.callers[p.Parent()]; len(sites) == 1 {
+			for i, q := range p.Parent().Params {
+				if q == p && i < len(sites[0].Instr.Common().Args) {
+					pc.walkRecv(sites[0].Instr.Common().Args[i], field, out, depth+1)
+					return
+				}
+			}
+		}
+	}
 	want := m.Sym.Of(ch).String()
 	var top *ssa.Function
 	if in, ok := ch.(ssa.Instruction); ok {
